@@ -349,6 +349,12 @@ def run(ctx: Ctx):
         "the fuzz part is seeded mutation/generation with a TLC-evaluated acceptance predicate (outcome class, CPU budget); it is sampling, not enumeration",
         f"CPU budget per case {BUDGET_MS} ms (process time)",
     ]
+    # ------------------------------------------------------------- SUITE: calls observed in the repository's own tests
+    from vf import suite
+    suite.step(ctx, "lines", ["P:C04"])
+    # ------------------------------------------------------------- FRESH: history independence of returned objects (spec/Fresh.tla)
+    from vf import fresh
+    fresh.step(ctx, "C04")
     return ctx.finish(rule=(
         "all abstract line sequences (9 tokens) up to length 5/6 checked by TLC, those up to length 4/5 concretised and parsed single+multiple "
         "under both providers; ~170 hostile structured cases; mutated fixtures / token soup / random bytes; non-trivial = contains a bad line "
